@@ -76,10 +76,17 @@ CLAIMS["C06"] = dict(
 )
 CLAIMS["C18"] = dict(
     category="other",
-    text="Edge-identity clause only: the orientation-insensitive edge key (equality is an equivalence identifying exactly {a,b}={c,d}; equal keys "
-         "hash equally), proved loop-free for all index values on the extracted functors. Neighbour lists, default boundary status and node "
-         "areas are undecided here.",
-    note="std::hash deterministic (assumed); std::unordered_map not modelled.",
+    text="Unbounded contract proofs on the extracted edge-key functors and set_neighbors: the orientation-insensitive key (equality is an equivalence "
+         "identifying exactly {a,b}={c,d}; equal keys hash equally); first loop (triangles -> edge map, three lemma parts per level: one triangle edge, one "
+         "triangle, all triangles): at most one entry per unordered vertex pair, every triangle edge has an entry, its count equals the number of "
+         "occurrences of the pair (ghost prefix table defined from the property), entries are pairs of two different vertices of a triangle; second loop "
+         "(entries -> neighbour rows): both end points of every entry occur in each other's row with equal distances, every row slot holds the other end "
+         "point of an incident entry, no node twice in a row, row length = number of incident entries, the boundary set is exactly the end points of "
+         "entries seen once; the accessors return the row length / a copy of the row. Node areas (xtensor expression algebra, nonlinear floating "
+         "point) are out of reach and NOT decided; `distance = Euclidean edge length` is checked by the native replay only.",
+    note="std::unordered_map modelled as a list of entries with unique keys up to the extracted equality functor (trusted container semantics); "
+         "std::hash deterministic (assumed); neighbour rows of 8 slots with the row-not-full instance at each push; chaining the two loops and the "
+         "generalisation over the ghosts are unmechanised.",
 )
 CLAIMS["C01"] = dict(
     category="other",
@@ -105,8 +112,13 @@ CLAIMS["C07"] = dict(
     category="other",
     text="Decided here: the neighbour cache clause -- cached and cache-less lookups return the uncached computation for every node whatever was "
          "queried before (bounded stand-in: 4 rows x width 8, stated), row accessors are exact. Offsets/codes/index arithmetic of raster and profile "
-         "grids are decided by the raster.* groups when listed in the evidence; distances and statuses otherwise undecided.",
-    note="std::array cache rows modelled as rows of a flat buffer; neighbors_indices_impl is a function of the node only.",
+         "grids are decided by the raster.* groups when listed in the evidence; the distance clause by the distances.* groups: compute_distance (two xtensor "
+         "expression statements turned into element loops by explicit rules) returns sqrt of the sum of spacing^2 over the axes whose offset is non-zero "
+         "(a wrap offset counts as one step), the distance tables pair the k-th distance with the k-th offset of each location code, profile neighbours "
+         "are at distance `spacing`, d(offset) == d(-offset); the neighbour status field by the accessors.* groups.",
+    note="std::array cache rows modelled as rows of a flat buffer; neighbors_indices_impl is a function of the node only; xtensor expression semantics "
+         "(adapt / equal / where / square / sum) assumed; sqrt abstracted as a deterministic function with the sign behaviour of sqrt, every other "
+         "floating-point operation of compute_distance is decided bit-precisely through one-operation lemmas.",
 )
 CLAIMS["C09"] = dict(
     category="other",
@@ -171,8 +183,11 @@ CLAIMS["C15"] = dict(
          "elevations, one Kruskal step takes an edge iff its end points are in different classes and then merges them, the per-call resets of "
          "connect_basins / compute_tree_kruskal, the lowest-pass update of one neighbour visit; Boruvka: the whole set-up phase (degrees, prefix "
          "pointers, every edge in the rows of both end points, degree lists) by sliced contracts and step lemmas of the main loop (selection of a "
-         "lightest live edge, append only between two different live super-nodes, rename, collapse, re-queue); orientation: one visited edge ends up "
-         "pointing away from the popped basin with link and pass swapped together, and the CSR loop bodies. Spanning / acyclic / minimum total weight / "
+         "lightest live edge, append only between two different live super-nodes, rename, collapse, re-queue, only a lightest parallel edge survives the "
+         "bucket clean-up); orientation: the CSR phase (sliced: rows consecutive, as long as the degree, every tree edge in the rows of both end points), "
+         "one visited edge ends up pointing away from the popped basin with link and pass swapped together, one pop preserves the stack-element / "
+         "progress invariants over a ghost forest, and when the depth-first parse ends every basin whose parent was popped has its parent edge stored as "
+         "(parent, basin). Spanning / acyclic / minimum total weight / "
          "Boruvka == Kruskal weight / `every tree edge points away from the root` for whole functions are BOUNDED checks of the extracted functions "
          "(stated bounds, labelled bounded, never counted as proof); Kruskal's and Boruvka's theorems themselves are unmechanised.",
     note="std::sort trusted (permutation of edge indices); vectors modelled with a symbolic capacity; order / basin-label / neighbour contracts and the "
